@@ -140,7 +140,7 @@ def check_cases(ctx, *, mode, n, module, cfg, diag_cfg, beh_path=None, extra_env
     return info, lines
 
 
-def corruption_selftest(ctx, *, mode, n, module, cfg, corruptions, extra_env=None, eligible=None):
+def corruption_selftest(ctx, *, mode, n, module, cfg, corruptions, extra_env=None, eligible=None, tries=1):
     """Record cases from the real renderer, check TLC accepts them, then corrupt the exported IR / case
     of one case at a time and require that exactly that case is rejected."""
     lines = drive(ctx, mode, n, os.path.join(ctx.work, "selftest.ndjson"), None, extra_env)
@@ -159,21 +159,29 @@ def corruption_selftest(ctx, *, mode, n, module, cfg, corruptions, extra_env=Non
     ok = True
     batch, expect = [], {}
     for name, fn in corruptions:
-        done = False
+        done = 0
         for c in good:
             bad = fn(json.loads(json.dumps(c)))
             if bad is not None:
                 bad["t"] = 100000 + len(batch)
                 batch.append(json.dumps(bad, separators=(",", ":"), sort_keys=True))
                 expect[bad["t"]] = name
-                done = True
-                break
+                done += 1
+                if done >= tries:
+                    break
         if not done:
             log("selftest: corruption %s not applicable to any recorded case" % name)
             ok = False
     rej, _, _, _ = walk_parallel(ctx, module, cfg, batch, chunks=1)
+    # with tries > 1 a corruption is applied to several recorded cases (it need not change the meaning of
+    # every one of them, e.g. a dropped rule that no probe reaches); it must be rejected on at least one
+    per = {}
     for t, name in sorted(expect.items()):
-        hit = t in rej
-        log("selftest: corruption %-28s -> %s" % (name, "rejected" if hit else "accepted (BAD)"))
-        ok = ok and hit
+        per.setdefault(name, []).append(t in rej)
+    for name, _ in corruptions:
+        hits = per.get(name, [])
+        good_ = any(hits)
+        log("selftest: corruption %-28s -> %s (%d of %d corrupted cases rejected)" %
+            (name, "rejected" if good_ else "accepted (BAD)", sum(hits), len(hits)))
+        ok = ok and good_
     return ok
